@@ -166,6 +166,11 @@ Section Object.
     let '(tr, fin) := run GCreated ops in (tr, drop fin).
 End Object.
 
+(* the language's contract for close(): a body must not yield (await again) when
+   GeneratorExit is thrown in *)
+Definition honours_close {S} (b : body S) : Prop :=
+  forall s v s', b s (ThrowE GenExit) <> BYield v s'.
+
 (* profiler switching is what the wrappers add on purpose; the property compares
    everything else *)
 Definition is_prof (e : event) : bool := match e with EIn _ => false | _ => true end.
